@@ -50,6 +50,8 @@ def make_spec(t):
 
 def gen_case(rng, idx, tier):
     sched = rng.choice(["slurm", "slurm", "sge", "lsf"])
+    if idx % 9 == 4:
+        sched = "local"
     dag = gen.gen_dag(rng, n_targets=rng.randint(2, 8), p_noout=0.1)
     ticks = {}
     for s in dag["sources"]:
@@ -74,10 +76,13 @@ def gen_case(rng, idx, tier):
         "patterns": scenario.gen_selection(rng, names) if rng.random() < 0.3 else [],
         "perturbs": perturbs,
         "symlinks": [s for s in dag["sources"] if rng.random() < 0.3],
+        "timeout_s": 280 if sched == "local" else None,
     }
 
 
 def run_case(case):
+    if case["sched"] == "local":
+        return run_local(case)
     res = Result()
     sched = case["sched"]
     with gen.Project() as proj:
@@ -220,4 +225,111 @@ def run_case(case):
         shared = any(len(v) >= 2 for v in inv.values()) or any(len(v) >= 2 for v in deps.values())
         res.sig = (gen.shape_class(deps), sched, kinds, sizes, case["hashing"], bool(pats))
         res.nontrivial = shared and any(0 < s < len([n for n in c if by[n]["outs"]]) for s in sizes)
+    return res
+
+
+def run_local(case):
+    """the same property through the real worker pool: jobs are executed by `gwf workers`"""
+    from .. import realpool
+
+    res = Result()
+    FINALS = ("COMPLETED", "FAILED", "CANCELLED", "KILLED")
+    with gen.Project() as proj:
+        ts = case["dag"]["targets"]
+        variant = [{"name": t["name"], "ins_expr": repr(t["ins"]), "outs_expr": repr(t["outs"]), "spec": t["spec"], "route": "target"} for t in ts]
+        proj.write_workflow(gen.render_workflow(variant))
+        for f, tk in case["ticks"].items():
+            if f in case.get("symlinks", ()) and tk is not None:
+                proj.set_file(f, tk, symlink=True, link_tick=tk)
+            else:
+                proj.set_file(f, tk)
+        mts = [dict(t, wd=proj.root) for t in ts]
+        by = {t["name"]: t for t in mts}
+        deps, _, _ = model.dependency_relation(mts)
+        inv = model.invert(deps)
+        names = set(deps)
+        c = set(names)
+        noout = {n for n in c if not by[n]["outs"]}
+        extra = {"use_spec_hashes": True} if case["hashing"] else {}
+        with realpool.Pool(proj, ncores=3, extra_cfg=extra) as pool:
+            env = cli.env_for(None, ())
+
+            def gwf_run():
+                before = set(pool.states())
+                r = cli.gwf(proj.root, ["run"], env, audit=False)
+                if r.rc != 0:
+                    res.violation("crash", "gwf -b local run failed", **cli.crash_witness(r))
+                    return None
+                tracked = proj.state_files().get("local-backend-tracked.json", {})
+                new = set(pool.states()) - before
+                return sorted(n for n, tid in tracked.items() if tid in new)
+
+            def drain():
+                ok = pool.wait_states(lambda st: all(v in FINALS for v in st.values()), timeout=90)
+                res.mon("drains")
+                st = pool.states()
+                res.mon("jobs_executed", len(st))
+                return ok, [t for t, v in st.items() if v != "COMPLETED"]
+
+            def check_converged(label, failed_before):
+                r = cli.gwf(proj.root, ["status"], env, audit=False)
+                table = dict(cli.parse_status(r.out))
+                res.mon("convergence_checked")
+                notdone = sorted(n for n in c if by[n]["outs"] and table.get(n) != "completed")
+                if notdone:
+                    res.violation("not-converged", "%s (local pool): not completed after all jobs succeeded: %s" % (label, {n: table.get(n) for n in notdone}), table=table)
+                    return False
+                sub = gwf_run()
+                if sub is None:
+                    return False
+                if sorted(sub) != sorted(noout):
+                    res.violation("rerun-not-noop", "%s (local pool): re-run submitted %s; expected only %s" % (label, sub, sorted(noout)))
+                    return False
+                drain()
+                return True
+
+            sub = gwf_run()
+            if sub is None:
+                return res
+            ok, bad = drain()
+            if not ok or bad:
+                raise Inconclusive("local pool: jobs did not all succeed: %s" % pool.states())
+            good = check_converged("initial", set())
+            kinds, sizes = [], []
+            if good:
+                for pi, p in enumerate(case["perturbs"][:2]):
+                    pr = random.Random(p["pick"])
+                    if p["kind"] == "modify":
+                        srcs = [s_ for s_ in case["dag"]["sources"] if any(s_ in t["ins"] for t in ts)]
+                        if not srcs:
+                            continue
+                        f = pr.choice(sorted(srcs))
+                        time.sleep(0.03)
+                        with open(proj.path(f), "a") as fh:
+                            fh.write("modified %d\n" % pi)
+                        seeds = {t["name"] for t in ts if f in t["ins"]}
+                    else:
+                        outs = [(o, t["name"]) for t in ts for o in t["outs"] if os.path.exists(proj.path(o))]
+                        if not outs:
+                            continue
+                        o, prod = pr.choice(sorted(outs))
+                        os.remove(proj.path(o))
+                        seeds = {prod}
+                    expect = model.closure(seeds, inv) | noout
+                    res.mon("perturbations")
+                    kinds.append(p["kind"])
+                    sizes.append(len(expect - noout))
+                    sub = gwf_run()
+                    if sub is None:
+                        return res
+                    if sorted(sub) != sorted(expect):
+                        res.violation("minimal-rerun", "local pool: after %s the run submitted %s; expected exactly %s" % (p["kind"], sub, sorted(expect)), seeds=sorted(seeds))
+                        break
+                    ok, bad = drain()
+                    if not ok:
+                        raise Inconclusive("local pool did not drain")
+                    if not check_converged("after %s #%d" % (p["kind"], pi), set()):
+                        break
+        res.sig = (gen.shape_class(deps), "local", kinds, sizes, case["hashing"], False)
+        res.nontrivial = any(0 < s_ < len([n for n in c if by[n]["outs"]]) for s_ in sizes)
     return res
